@@ -15,13 +15,13 @@ namespace Stack
   simp [peek, stk]
 
 theorem pop_mk (pre st : List Val) (n : Nat) :
-    (stk pre st).pop n = if st.length < n then .err else .ok (st.take n, stk pre (st.drop n)) := by
+    (stk pre st).pop n = if st.length < n then .stuck else .ok (st.take n, stk pre (st.drop n)) := by
   simp only [pop, stk, List.length_append, Nat.add_sub_cancel_left, List.drop_left, List.take_left]
 
 @[simp] theorem pop1_mk_cons (pre st : List Val) (a : Val) : (stk pre (a :: st)).pop1 = .ok (a, stk pre st) := by
   simp [pop1, pop_mk]
 
-@[simp] theorem pop1_mk_nil (pre : List Val) : (stk pre []).pop1 = .err := by
+@[simp] theorem pop1_mk_nil (pre : List Val) : (stk pre []).pop1 = .stuck := by
   simp [pop1, pop_mk]
 
 @[simp] theorem pop2_mk_cons (pre st : List Val) (a b : Val) :
@@ -29,10 +29,10 @@ theorem pop_mk (pre st : List Val) (n : Nat) :
   have h : ¬ (st.length + 1 + 1 < 2) := by omega
   simp [pop2, pop_mk, h]
 
-@[simp] theorem pop2_mk_one (pre : List Val) (a : Val) : (stk pre [a]).pop2 = .err := by
+@[simp] theorem pop2_mk_one (pre : List Val) (a : Val) : (stk pre [a]).pop2 = .stuck := by
   simp [pop2, pop_mk]
 
-@[simp] theorem pop2_mk_nil (pre : List Val) : (stk pre []).pop2 = .err := by
+@[simp] theorem pop2_mk_nil (pre : List Val) : (stk pre []).pop2 = .stuck := by
   simp [pop2, pop_mk]
 
 @[simp] theorem pop3_mk_cons (pre st : List Val) (a b c : Val) :
